@@ -30,6 +30,14 @@ CHECKS: dict = {
     },
 }
 
+CHECKS["C01"] = {
+    "category": "model_checking",
+    "text": "TLC explores every interleaving of the L1 protocol model (DataShard.tla: one action per storage operation, lock request and stored clock read) for 2-3 committers mixing appends, deletes, expiries and snapshot deletions over separate/shared handles, strict/coarse/frozen clocks, local and CAS backends, checking Serializable (table = acknowledged history applied in pointer order), AckedOnce, LinearChain, FlipReplacesValidated. The model is bound to the code by trace validation: the same scenarios run on the real library under a deterministic scheduler (every storage call is a scheduling point; all single-pause schedules plus seeded double-pause/random ones), and TLC validates every recorded trace against the same actions, comparing the metadata/manifests the code wrote with what the model computes and evaluating every invariant after every event. Right level: the property quantifies over schedules; exhaustive interleaving of the protocol steps is what decides it.",
+    "design_ref": "DESIGN.md 6/C01, 4.2, 5",
+    "note": "Trusted: TLC, the baton scheduler's serialisation of actor threads (no true parallelism inside one storage call), call-stack based tagging of pointer reads, the independent reader. Bounded: <=3 committers, <=2 operations each, model retries <=2 (real executions use the library's 50), canonical ids (no 63-bit collisions).",
+    "technique": "TLA+ protocol spec (DataShard.tla) model-checked by TLC; trace validation of real scheduled executions against the same spec (Trace_L1.tla)",
+}
+
 NOT_YET: dict = {}
 
 
